@@ -98,6 +98,7 @@ impl Prop for C18 {
             ops,
             stream: None,
             config: desc,
+            hidden_faults: take_hidden_faults(),
         }
     }
 
@@ -109,6 +110,11 @@ impl Prop for C18 {
         // observer state per node, inferred from the std build's accepted results
         let mut acc: Vec<usize> = vec![0; nn];
         let mut dead: Vec<bool> = vec![false; nn];
+        // the std build changed its reassembly state on a line whose own payload exceeds 384
+        // bytes, which the no-alloc build rejected while still parsing the sentence (its state
+        // is untouched): until both accept the same opener the two state machines are out of
+        // step. Violations inside that window carry their own site (see known_findings.json).
+        let mut desync: Vec<bool> = vec![false; nn];
         let mut abs: Vec<AbsNode> = vec![AbsNode::default(); nn];
         for (i, op) in sc.ops.iter().enumerate() {
             let l = match op {
@@ -120,6 +126,7 @@ impl Prop for C18 {
                     none_nodes[n].restart();
                     acc[n] = 0;
                     dead[n] = false;
+                    desync[n] = false;
                     if let Some(st) = st.as_deref_mut() {
                         st.restarts += 1;
                         abs[n].restart(st);
@@ -129,6 +136,9 @@ impl Prop for C18 {
                 _ => continue,
             };
             let n = l.node.min(nn - 1);
+            let own = own_payload_len(&l.bytes);
+            let own_too_large = matches!(own, Some(len) if len > CAP_PAYLOAD);
+            let std_state_before = if own_too_large { Some(std_nodes[n].state()) } else { None };
             let o_std = std_nodes[n].parse(&l.bytes, l.decode, l.conv_result);
             let o_alloc = alloc_nodes[n].parse(&l.bytes, l.decode, l.conv_result);
             let o_none = none_nodes[n].parse(&l.bytes, l.decode, l.conv_result);
@@ -179,8 +189,6 @@ impl Prop for C18 {
                     "the alloc build answers differently from the std build".into(),
                 ));
             }
-            let own = own_payload_len(&l.bytes);
-            let own_too_large = matches!(own, Some(len) if len > CAP_PAYLOAD);
             match (&o_std, &o_none) {
                 (Outcome::Complete(a, ca), Outcome::Complete(b, cb))
                 | (Outcome::Incomplete(a, ca), Outcome::Incomplete(b, cb)) => {
@@ -194,7 +202,7 @@ impl Prop for C18 {
                         };
                         return Some(fail(
                             "none-accepts-with-different-content",
-                            what.into(),
+                            if desync[n] { "desync-after-oversize-line".into() } else { what.to_string() },
                             "none",
                             format!(
                                 "both builds accept but the {} differs (payload length std {} vs none {}; message std {:?} vs none {:?})",
@@ -252,11 +260,15 @@ impl Prop for C18 {
                 (Outcome::ErrNmea(_) | Outcome::ErrChecksum { .. }, Outcome::Complete(..) | Outcome::Incomplete(..)) => {
                     return Some(fail(
                         "none-accepts-what-std-rejects",
-                        format!(
-                            "{}{}",
-                            o_std.kind(),
-                            if dead[n] { ",after-capacity-rejection" } else { "" }
-                        ),
+                        if desync[n] {
+                            "desync-after-oversize-line".to_string()
+                        } else {
+                            format!(
+                                "{}{}",
+                                o_std.kind(),
+                                if dead[n] { ",after-capacity-rejection" } else { "" }
+                            )
+                        },
                         "none",
                         format!(
                             "the no-alloc build accepts a line the std build rejects{}",
@@ -294,7 +306,7 @@ impl Prop for C18 {
                         None => {
                             return Some(fail(
                                 "none-rejects-within-capacity",
-                                format!("{}", o_std.kind()),
+                                if desync[n] { "desync-after-oversize-line".to_string() } else { o_std.kind().to_string() },
                                 "none",
                                 "the no-alloc build rejects a line the std build accepts although no fixed capacity is exceeded".into(),
                             ));
@@ -349,6 +361,20 @@ impl Prop for C18 {
                 );
             }
             // advance the observer from the std build's answer
+            if own_too_large && o_none.is_err() {
+                // (the std parser's Debug state is read only to label the window, never to judge)
+                if std_state_before.as_deref() != Some(std_nodes[n].state().as_str()) {
+                    desync[n] = true;
+                    if let Some(st) = st.as_deref_mut() {
+                        st.probe("desync window opened by an over-long fragment line");
+                    }
+                }
+            }
+            if let (Outcome::Incomplete(a, _), Outcome::Incomplete(_, _)) = (&o_std, &o_none) {
+                if a.k == 1 {
+                    desync[n] = false;
+                }
+            }
             match &o_std {
                 Outcome::Incomplete(s, _) if s.k == 1 => {
                     acc[n] = s.data.len();
@@ -368,9 +394,7 @@ impl Prop for C18 {
             }
         }
         if let Some(st) = st.as_deref_mut() {
-            for a in &abs {
-                st.histories.insert(a.history_hash());
-            }
+            st.histories.insert(combined_history(&abs));
         }
         None
     }
